@@ -70,6 +70,7 @@ package dockerlog
 //@   ensures[closes-the-reader] c_called && same(c_recv, old(i.rd)) && ret0 == c_r0
 
 //@ func ParseLog
+//@   modifies nothing
 //@   ensures[fields] typeis[*streamIter](ret0) && same(as[*streamIter](ret0).rd, f) && as[*streamIter](ret0).err == nil && same(as[*streamIter](ret0).resource, resource)
 
 // ---- C02 / C20: container labels and selection
@@ -88,3 +89,117 @@ package dockerlog
 
 //@ func (*Querier).Capabilities
 //@   ensures[line-filters-never-offloaded] caps.Line == 0
+
+// ---- C04 / C14: merging several container logs
+
+//@ scope merge_iter.go
+
+//@ func (iterHeapElem).Less
+//@   pure
+//@   ensures[by-timestamp] ret0 == (a.record.Timestamp < b.record.Timestamp)
+
+//@ func (iterHeap).Len
+//@   modifies nothing
+//@   ensures ret0 == len(h)
+//@ func (iterHeap).Less
+//@   requires 0 <= i && i < len(h) && 0 <= j && j < len(h)
+//@   modifies nothing
+//@   ensures[by-timestamp] ret0 == (h[i].record.Timestamp < h[j].record.Timestamp)
+//@ func (iterHeap).Swap
+//@   requires 0 <= i && i < len(h) && 0 <= j && j < len(h)
+//@   modifies h[*]
+//@   ensures[swaps] same(h[i], old(h[j])) && same(h[j], old(h[i]))
+//@ func (*iterHeap).Push
+//@   requires typeis[iterHeapElem](x)
+//@   ensures[appends] len(*h) == old(len(*h)) + 1 && same((*h)[len(*h)-1], as[iterHeapElem](x))
+//@ func (*iterHeap).Pop
+//@   requires len(*h) > 0
+//@   ensures[removes-last] len(*h) == pre(len(*h)) - 1 && typeis[iterHeapElem](ret0) && same(as[iterHeapElem](ret0), pre((*h)[len(*h)-1]))
+
+//@ func (*mergeIter).init
+//@   capture nx = call(iter.Next, 0)
+//@   capture ps = call(heap.Push, 0)
+//@   modifies *
+//@   ensures[once] i.initiazed
+//@   loop 0 modifies *
+//@   loop 0 invariant i.initiazed
+//@   loop 0 body_ensures[one-record-per-live-source] nx_called && ps_called == nx_r0
+//@   loop 0 body_ensures[tagged-with-its-source] ps_called ==> typeis[iterHeapElem](ps_a1) && as[iterHeapElem](ps_a1).iterIdx == rangeindex && as[iterHeapElem](ps_a1).record.Timestamp == record.Timestamp && as[iterHeapElem](ps_a1).record.Body == record.Body
+
+//@ func (*mergeIter).Next
+//@   capture pp = call(heap.Pop, 0)
+//@   capture nx = call(iter.Next, 0)
+//@   capture er = call(iter.Err, 0)
+//@   capture ps = call(heap.Push, 0)
+//@   modifies *
+//@   ensures[delivers-the-popped-record] ok ==> pp_called && (!ps_called ==> r.Timestamp == as[iterHeapElem](pp_r0).record.Timestamp && r.Body == as[iterHeapElem](pp_r0).record.Body)
+//@   ensures[refills-from-the-same-source] ps_called ==> nx_called && nx_r0 && as[iterHeapElem](ps_a1).iterIdx == as[iterHeapElem](pp_r0).iterIdx
+//@   ensures[exhausted-source-leaves-the-heap] nx_called && !nx_r0 ==> !ps_called
+//@   ensures[source-error-ends-iteration] nx_called && !nx_r0 && er_called && er_r0 != nil ==> !ok
+//@   ensures[error-is-consulted-when-a-source-stops] nx_called && !nx_r0 ==> er_called
+
+//@ func (*mergeIter).Err
+//@   capture e = call(iter.Err, 0)
+//@   loop 0 modifies rerr
+//@   loop 0 invariant rangeindex+1 <= len(i.iters)
+//@   loop 0 body_ensures[asks-every-source] e_called && same(e_recv, i.iters[rangeindex])
+//@   loop 0 body_ensures[any-source-error-surfaces] (rerr != nil) == (head(rerr != nil) || e_r0 != nil)
+
+//@ func (*mergeIter).Close
+//@   capture c = call(iter.Close, 0)
+//@   loop 0 modifies *
+//@   loop 0 body_ensures[closes-every-source] c_called
+
+// ---- C02 / C04 / C14: selecting containers and opening their logs
+
+//@ scope dockerlog.go
+
+//@ func (*Querier).fetchContainers
+//@   capture lc = call(q.client.ContainerList, 0)
+//@   capture gl = call(getLabels, 0)
+//@   capture mt = call(set.Match, 0)
+//@   modifies *
+//@   ensures[lists-all-containers] lc_called && lc_a1.All
+//@   ensures[listing-error-surfaces] lc_r1 != nil ==> ret1 != nil
+//@   loop 0 modifies *
+//@   loop 0 body_ensures[labels-of-this-container] gl_called && same(gl_a0, ctr) && mt_called && same(mt_recv, gl_r0) && same(mt_a0, params.Labels)
+//@   loop 0 body_ensures[kept-iff-every-matcher-holds] (len(r) == head(len(r))+1) == mt_r0 && (len(r) == head(len(r))) == !mt_r0
+//@   loop 0 body_ensures[kept-with-its-own-id-and-labels] mt_r0 ==> r[len(r)-1].ID == ctr.ID && same(r[len(r)-1].labels, gl_r0)
+
+// The Docker client is external: it does not touch the program's own memory (assumption).
+//@ iface github.com/docker/docker/client.APIClient.ContainerLogs
+//@   modifies nothing
+//@ iface github.com/docker/docker/client.APIClient.ContainerList
+//@   modifies nothing
+
+//@ func (containerLabels).AsResource
+//@   trusted
+//@   modifies nothing
+
+//@ func (*Querier).openLog
+//@   capture cl = call(q.client.ContainerLogs, 0)
+//@   capture pl = call(ParseLog, 0)
+//@   capture ar = call(ctr.labels.AsResource, 0)
+//@   modifies nothing
+//@   ensures[asks-for-this-container] cl_called && cl_a1 == ctr.ID
+//@   ensures[both-streams-with-timestamps] cl_a2.ShowStdout && cl_a2.ShowStderr && cl_a2.Timestamps && cl_a2.Tail == "all" && !cl_a2.Follow
+//@   ensures[window-in-whole-seconds] (!start.AsTime().IsZero() ==> cl_a2.Since == strconv.FormatInt(start.AsTime().Unix(), 10)) && (!end.AsTime().IsZero() ==> cl_a2.Until == strconv.FormatInt(end.AsTime().Unix(), 10))
+//@   ensures[open-error-surfaces] cl_r1 != nil ==> ret1 != nil && !pl_called
+//@   ensures[lines-carry-this-containers-labels] cl_r1 == nil ==> ret1 == nil && pl_called && same(pl_a0, cl_r0) && ar_called && same(ar_recv, ctr.labels) && same(pl_a1, ar_r0) && ret0 == pl_r0
+
+// The closure run for every container writes exactly its own slot of iters.
+//@ func (*Querier).SelectLogs$2
+//@   logical other int
+//@   capture ol = call(q.openLog, 0)
+//@   requires 0 <= idx && idx < len(iters)
+//@   modifies iters[*]
+//@   ensures[opens-its-own-container] ol_called && same(ol_a1, ctr)
+//@   ensures[error-surfaces] ol_r1 != nil ==> ret0 != nil
+//@   ensures[fills-its-own-slot] ol_r1 == nil ==> ret0 == nil && iters[idx] == ol_r0
+//@   ensures[no-other-slot-touched] 0 <= other && other < len(iters) && other != idx ==> same(iters[other], old(iters[other]))
+
+// On failure every log that was opened is closed again.
+//@ func (*Querier).SelectLogs$1
+//@   capture c = call(iter.Close, 0)
+//@   loop 0 modifies *
+//@   loop 0 body_ensures[closes-every-opened-log] c_called == (iter != nil)
